@@ -46,6 +46,7 @@ mod verif_kani {
         let mut cur = Cursor::new(&data[..len]);
         let s1: u64 = kani::any();
         let l1: u64 = kani::any();
+        kani::assume(s1 <= 7 && l1 <= 7);
         let hr = vec![HashRange::new(s1, l1)];
         let res = hash_stream_by_alg_with_progress_impl("sha256", &mut cur, Some(hr), true, &mut |_, _| Ok(()), NonZeroUsize::new(1 << 20).unwrap());
         let past_end = s1 as u128 + l1 as u128 > len as u128;
@@ -59,6 +60,9 @@ mod verif_kani {
             }
             unsafe { assert!(k == LOG_LEN); }
         }
+        kani::cover!(res.is_ok() && l1 > 0);
+        kani::cover!(res.is_err());
+        std::mem::forget(res);
     }
 
     #[kani::proof]
@@ -99,6 +103,8 @@ mod verif_kani {
         let mut cur = Cursor::new(&data[..]);
         let res = hash_stream_by_alg_with_progress_impl("sha256", &mut cur, None, true, &mut |_, _| Ok(()), NonZeroUsize::new(1 << 20).unwrap());
         assert!(res.is_ok());
+        unsafe { assert!(LOG_LEN == 2); assert!(LOG[0] == data[0] && LOG[1] == data[1]); }
+        std::mem::forget(res);
     }
 
     #[kani::proof]
@@ -154,5 +160,40 @@ mod verif_kani {
             }
             unsafe { assert!(k == LOG_LEN); }
         }
+    }
+}
+
+#[cfg(test)]
+mod verif_scratch_tests {
+    #![allow(clippy::unwrap_used)]
+    use super::*;
+
+    fn sha(x: &[u8]) -> Vec<u8> { let mut h = Hasher::new("sha256").unwrap(); h.update(x); Hasher::finalize(h) }
+
+    #[test]
+    fn s2_past_end_not_last() {
+        let data = vec![7u8; 50];
+        let r = hash_stream_by_alg("sha256", &mut Cursor::new(&data), Some(vec![HashRange::new(0, 100), HashRange::new(5, 1)]), true);
+        println!("S2 exclusion [(0,100),(5,1)] on 50 bytes -> {:?}", r.as_ref().map(|v| v.len()));
+        let r2 = hash_stream_by_alg("sha256", &mut Cursor::new(&data), Some(vec![HashRange::new(0, 100)]), true);
+        println!("S2 exclusion [(0,100)] on 50 bytes -> {:?}", r2.as_ref().map(|v| v.len()));
+        let r3 = hash_stream_by_alg("sha256", &mut Cursor::new(&data), Some(vec![HashRange::new(10, 100), HashRange::new(20, 1)]), true);
+        println!("S2 exclusion [(10,100),(20,1)] on 50 bytes -> ok={} equals_hash_of_first_10={}", r3.is_ok(), r3.as_ref().map(|v| *v == sha(&data[..10])).unwrap_or(false));
+    }
+
+    #[test]
+    fn s3_marker_single_byte() {
+        let data: Vec<u8> = (0u8..20).collect();
+        // exclude [0,10) and [11,20): only byte 10 included; marker at 10
+        let mut m = HashRange::new(10, 1); m.set_bmff_offset(10);
+        let r = hash_stream_by_alg("sha256", &mut Cursor::new(&data), Some(vec![HashRange::new(0, 10), HashRange::new(11, 9), m]), true).unwrap();
+        let mut expect = Vec::new(); expect.extend_from_slice(&10u64.to_be_bytes()); expect.push(data[10]);
+        let mut twice = Vec::new(); twice.extend_from_slice(&10u64.to_be_bytes()); twice.extend_from_slice(&10u64.to_be_bytes());
+        println!("S3 single byte at marker: equals offset++byte = {}, equals offset++offset = {}", r == sha(&expect), r == sha(&twice));
+        // marker before first included byte
+        let mut m2 = HashRange::new(2, 1); m2.set_bmff_offset(2);
+        let r = hash_stream_by_alg("sha256", &mut Cursor::new(&data), Some(vec![HashRange::new(0, 5), m2]), true).unwrap();
+        let mut with = Vec::new(); with.extend_from_slice(&2u64.to_be_bytes()); with.extend_from_slice(&data[5..]);
+        println!("S3 marker inside leading exclusion: hashed with marker = {}, marker dropped = {}", r == sha(&with), r == sha(&data[5..]));
     }
 }
